@@ -11,7 +11,7 @@ THEOREMS = [NS + t for t in (
     'C11_sheet_quote_roundtrip', 'C11_split_sheet_partial', 'C11_split_sheet_counterexample',
     'C11_print_parse_cell', 'C11_print_parse_range', 'C11_print_parse_partial', 'C11_print_parse_counterexample',
     'C11_r1c1_abs', 'C11_r1c1_rel', 'C11_notations_agree',
-    'C11_cells_count', 'C11_cells_mem', 'C11_cells_nodup', 'C11_cols_same_cells',
+    'C11_cells_count', 'C11_cells_mem', 'C11_cells_nodup', 'C11_cols_same_cells', 'C11_cells_sheet', 'C11_cells_resheet', 'C11_resheet',
     'C11_inter_spec', 'C11_inter_null_iff', 'C11_inter_cells', 'C11_union_bounding', 'C11_union_least',
     'C11_inter_comm', 'C11_union_comm', 'C11_inter_idem', 'C11_union_idem', 'C11_inter_assoc', 'C11_union_assoc',
     'C11_sheet_rule', 'C11_comm_sheets', 'C11_assoc_sheets', 'C11_union_assoc_all_sheets',
@@ -30,13 +30,14 @@ RULE = ('ops on AddressRange/AddressCell public API: parse (A1, $, R1C1 absolute
 ASSUMPTIONS = [
     'address text holds no newline and no non-ASCII decimal digit (Python regex `$` / `\\d` quirks are not modelled)',
     'structured references and defined names are observed only as "no such table / name" (a workbook-less cell)',
-    'AddressMultiAreaRange and re-wrapping of address objects (AddressRange(obj, sheet=…)) are not modelled',
+    'AddressMultiAreaRange is not modelled; derived address objects (AddressRange(obj, sheet=…), operator results, '
+    'offsets) are values of the model, whatever was called on the source object before (op hist)',
     'operator-level associativity (C11_operand_assoc) is stated for one sheet; the Rect-level laws cover every '
     'sheet qualification (C11_comm_sheets, C11_assoc_sheets, C11_union_assoc_all_sheets)',
 ]
 TRUSTED = ['modelled, not verified: Python re (ABSOLUTE_RE, R1C1_RANGE_RE, TABLE_REF_RE), str.split/replace, '
            'openpyxl get_column_letter / column_index_from_string / quote_sheetname']
-REQUIRED_BUCKETS = ['comb:sheets', 'comb:unbounded', 'parse:a1', 'parse:r1c1', 'parse:sheet', 'parse:malformed', 'tuple', 'tuple:bang', 'nota',
+REQUIRED_BUCKETS = ['hist', 'comb:sheets', 'comb:unbounded', 'parse:a1', 'parse:r1c1', 'parse:sheet', 'parse:malformed', 'tuple', 'tuple:bang', 'nota',
                     'comb:i', 'comb:u', 'comb3', 'assoc', 'offset', 'enum', 'contains', 'sheet']
 EXHAUSTIVE = False
 
@@ -388,6 +389,29 @@ def cases(tier, rng):
                      ('#REF!', 'A1'), ('A1:B2', '#REF!'), ('B2:A1', 'A1'), ('A1:B2', 'R1C1')]:
         yield {'op': 'contains', 'r': r_, 'c': c_}
 
+    # --- object histories: use an address object (any subset of its public API, any order), derive new objects from it
+    # by every public route, compare each derived object with a fresh one built from its own text
+    touches = ['rows', 'cols', 'resolve_range', 'size', 'address', 'abs_address', 'quoted_address', 'hash', 'in',
+               'and', 'pow', 'offset', 'is_unbounded_range', 'sort_key', 'str']
+    hbases = ['B2:C3', 'A1', 'B2', 'A1:A3', 'C1:D1', 'S!B2:C3', 'S!B2', "'My Sheet'!B2:C3", 'My Sheet!A1', 'Z9:AA10']
+    hsheets = ['', 'S', 'T', 'My Sheet', "Bob's sheet"]
+    hothers = ['A1', 'C3', 'B2:D4', 'S!C3', 'E5', 'T!A1']
+    for t in hbases:
+        for s2 in hsheets:
+            for pre in ([], ['resolve_range'], ['rows', 'cols'], ['size', 'hash'], list(touches)):
+                yield {'op': 'hist', 'text': t, 'pre': pre, 'sheet2': s2, 'ri': 1, 'ci': -1, 'other': 'A1', 'wf': 1}
+    for _ in range(4000 if thorough else 700):
+        if rng.random() < .6:
+            t = rng.choice(hbases)
+        else:
+            c1, r1 = rng.randint(1, 30), rng.randint(1, 12)     # near the origin: ** with `other` is enumerated
+            t = a1(c1, r1, c1 + rng.randint(0, 3), r1 + rng.randint(0, 3))
+            if rng.random() < .4:
+                t = rng.choice(['S!', "'My Sheet'!"]) + t
+        pre = [rng.choice(touches) for _ in range(rng.randint(0, 6))]
+        yield {'op': 'hist', 'text': t, 'pre': pre, 'sheet2': rng.choice(hsheets), 'ri': rng.randint(-3, 3),
+               'ci': rng.randint(-3, 3), 'other': rng.choice(hothers), 'wf': 1}
+
     # --- sheet-name helpers
     names = SHEETS + BANG_SHEETS + ["'a'", "'a b'", "'a''b'", "'", "''", "'''", "''''", "'a", "a'", "'a'b'", "a''b",
                                     "' '", "'a''", "x'y'z"]
@@ -514,6 +538,8 @@ def impl(c):
         if a.is_range:
             return f'{head} ROWS {fmt_grid(a.rows)} COLS {fmt_grid(a.cols)} RES {res}'
         return f'{head} RES {res}'
+    if op == 'hist':
+        return impl_hist(xl, c)
     if op == 'contains':
         a = xl.AddressRange.create(c['r'])
         if isinstance(a, str):
@@ -527,6 +553,94 @@ def impl(c):
         sh, addr = xl.split_sheetname(c['text'], sheet=c['sheet'])
         return f'{T(sh)} {T(addr)}'
     raise ValueError(op)
+
+
+def describe(xl, d):
+    """every public attribute of an address object, its enumeration included"""
+    u = int(bool(d.is_unbounded_range))
+    res = guard(lambda: fmt_grid(d.resolve_range))
+    ok = 1
+    try:
+        for row in d.resolve_range:
+            for cell in row:
+                want = xl.AddressCell((cell.col_idx, cell.row, cell.col_idx, cell.row), sheet=d.sheet)
+                if cell != want or cell.sheet != d.sheet or str(cell) != want.address:
+                    ok = 0
+        if d.is_range:
+            if fmt_grid(d.rows) != res or sorted(x for col in d.cols for x in col) != sorted(
+                    x for row in d.resolve_range for x in row):
+                ok = 0
+            if any(c.sheet != d.sheet for row in d.rows for c in row) or \
+                    any(c.sheet != d.sheet for col in d.cols for c in col):
+                ok = 0
+        if d.start.sheet != d.sheet or d.end.sheet != d.sheet or d.has_sheet != bool(d.sheet):
+            ok = 0
+    except AssertionError:
+        pass
+    return (f'{fmt_addr(d)} P {T(d.quoted_address)} {T(d.abs_address)} {T(d.coordinate)} {T(d.abs_coordinate)} '
+            f'U {u} RES {res} SH {ok}')
+
+
+def _touch(xl, a, name, other):
+    if name in ('rows', 'cols'):
+        if a.is_range:
+            [list(r) for r in getattr(a, name)]
+    elif name == 'hash':
+        hash(a)
+    elif name == 'in':
+        a.start in a
+    elif name == 'and':
+        a & other
+    elif name == 'pow':
+        a ** other
+    elif name == 'offset':
+        a.address_at_offset(1, 1)
+    elif name == 'str':
+        str(a)
+    else:
+        getattr(a, name)
+
+
+def impl_hist(xl, c):
+    base = xl.AddressRange.create(c['text'])
+    other = c['other']
+    for name in c['pre']:
+        _touch(xl, base, name, other)
+    s2 = c['sheet2']
+    cell = _FakeCell(2, 3)
+
+    def d(f):
+        try:
+            x = f()
+        except Exception as exc:   # noqa
+            return core.canon_exc(exc)
+        if isinstance(x, str):
+            return 'E ' + T(x)
+        fresh = xl.AddressRange.create(x.address)
+        eq = int(x == fresh and hash(x) == hash(fresh) and type(x) is type(fresh))
+        return f'D {describe(xl, x)} F {describe(xl, fresh)} EQ {eq}'
+    is_cell = not base.is_range
+    r1 = guard(lambda: None)
+    routes = [
+        d(lambda: xl.AddressRange(base)),
+        d(lambda: xl.AddressRange(base, sheet=s2)),
+        d(lambda: xl.AddressCell(base)) if is_cell else 'NA',
+        d(lambda: xl.AddressCell(base, sheet=s2)) if is_cell else 'NA',
+        d(lambda: xl.AddressRange.create(base, sheet=s2, cell=cell)),
+        d(lambda: base.address_at_offset(c['ri'], c['ci'])),
+        d(lambda: base & other),
+        d(lambda: base ** other),
+    ]
+    try:
+        x2 = xl.AddressRange(base, sheet=s2)
+        for name in c['pre']:
+            _touch(xl, x2, name, other)
+        routes.append(d(lambda: xl.AddressRange(x2, sheet=s2)))
+        routes.append(d(lambda: x2 ** other))
+    except Exception as exc:   # noqa
+        routes += [core.canon_exc(exc)] * 2
+    del r1
+    return ' | '.join(routes)
 
 
 def _n(v):
@@ -552,6 +666,8 @@ def model_lines(c):
         return [f"c11 offset {T(c['text'])} {c['ri']} {c['ci']} {c['rj']} {c['cj']}"]
     if op == 'enum':
         return [f"c11 {'enum0' if c.get('nolist') else 'enum'} {T(c['text'])}"]
+    if op == 'hist':
+        return [f"c11 hist {T(c['text'])} {T(c['sheet2'])} {c['ri']} {c['ci']} {T(c['other'])}"]
     if op == 'contains':
         return [f"c11 contains {T(c['r'])} {T(c['c'])}"]
     if op in ('quote', 'unquote'):
@@ -747,6 +863,20 @@ def oracles(results):
                 yield c, 'an enumerated cell is not contained in the range'
             elif sorted(x for col in cols for x in col) != sorted(flat) or m[-1] != m[m.index('ROWS') + 1]:
                 yield c, 'rows / cols / resolve_range enumerate different cells'
+        elif op == 'hist':
+            for i, part in enumerate(out.split(' | ')):
+                if not part.startswith('D '):
+                    continue
+                body, _, eq = part[2:].rpartition(' EQ ')
+                dd, _, ff = body.partition(' F ')
+                if dd != ff or eq != '1':
+                    yield c, f'derived object (route {i}) differs from a fresh object built from its own text: ' \
+                             f'{core.show(dd.split(" P ")[0])[-40:]} / RES {dd.split(" RES ")[-1][:60]} vs ' \
+                             f'{ff.split(" RES ")[-1][:60]}'
+                    break
+                if not dd.endswith('SH 1'):
+                    yield c, f'derived object (route {i}): an enumerated cell / corner does not carry the sheet'
+                    break
         elif op == 'contains':
             a = _parse_fmt(fmt_addr(xl.AddressRange.create(c['r'])))
             x = _parse_fmt(fmt_addr(xl.AddressRange.create(c['c'])))
